@@ -32,7 +32,7 @@ stream into chunks, wherever `Pending`s and I/O errors are placed, the frame out
 (items, decode errors, end of stream) are a prefix of the outputs of the whole stream -/
 theorem chunking_irrelevant_prefix {F} (c : Codec F) (hs : Stable c) (script : List Rd) (n : Nat) :
     frames (pollN c n (rinit script)).1 <+: whole c n (streamOf script) := by
-  have := (pollN_spec c hs n (rinit script) (good_rinit c hs script)).1
+  have := (pollN_spec c hs n (rinit script) (good_rinit script)).1
   simpa [expect, rinit] using this
 
 /-- every poll answers (the loop never runs out of fuel), and the `Pending`s and I/O errors come
@@ -40,7 +40,7 @@ out exactly as scripted, in order: each is surfaced once and reading continues -
 theorem events_in_order {F} (c : Codec F) (hs : Stable c) (script : List Rd) (n : Nat) :
     (pollN c n (rinit script)).1.length = n ∧ Out.spin ∉ (pollN c n (rinit script)).1 ∧
     events (pollN c n (rinit script)).1 <+: eventsOf script := by
-  have h := pollN_spec c hs n (rinit script) (good_rinit c hs script)
+  have h := pollN_spec c hs n (rinit script) (good_rinit script)
   refine ⟨pollN_length c n _, h.2.2.1, ?_⟩
   simpa [evs, rinit] using h.2.1
 
@@ -149,6 +149,47 @@ example : readRoom 0 = framedHW ∧ readRoom 1023 = framedHW - 1023 ∧ readRoom
 `debug_assert!(!EOF)` before the read (framed.rs:215) unreachable -/
 theorem eof_implies_readable {F} (c : Codec F) (hs : Stable c) (script : List Rd) (n : Nat) :
     (pollN c n (rinit script)).2.eof = true → (pollN c n (rinit script)).2.readable = true :=
-  (pollN_spec c hs n (rinit script) (good_rinit c hs script)).2.2.2.1
+  (pollN_spec c hs n (rinit script) (good_rinit script)).2.2.2
+
+/-- **codec swap** (`into_map_codec`, `replace_codec`, `into_parts` + `from_parts`: flags and
+`read_buf` are carried over, only the codec changes — in the model the codec is a parameter of
+`pollN`, the state is untouched).  After any number of polls with `c1`, polling on with another
+stable codec `c2` yields a prefix of what `c2` decodes from the bytes not yet consumed (what is
+buffered followed by what the transport still delivers; at EOF the end-of-stream outputs of the
+buffer) — however those bytes arrived and wherever `Pending`s and I/O errors are placed; the
+transport events still come out as scripted and every poll answers.  No assumption links the two
+codecs: in particular READABLE may be clear (`c1` needed more data) while `c2` can decode a frame
+from the buffer; that frame then comes out after the next read, in order -/
+theorem swap_chunking_irrelevant {F G} (c1 : Codec F) (c2 : Codec G) (h1 : Stable c1) (h2 : Stable c2)
+    (script : List Rd) (n1 n2 : Nat) :
+    frames (pollN c2 n2 (pollN c1 n1 (rinit script)).2).1 <+:
+      expect c2 n2 (pollN c1 n1 (rinit script)).2 ∧
+    events (pollN c2 n2 (pollN c1 n1 (rinit script)).2).1 <+:
+      (evs (pollN c1 n1 (rinit script)).2 : List (Out G)) ∧
+    Out.spin ∉ (pollN c2 n2 (pollN c1 n1 (rinit script)).2).1 := by
+  have g1 := (pollN_spec c1 h1 n1 (rinit script) (good_rinit script)).2.2.2
+  have h := pollN_spec c2 h2 n2 _ g1
+  exact ⟨h.1, h.2.1, h.2.2.1⟩
+
+/-- two lines coalesced in one read, the first consumed, then the codec is swapped (here: for a
+fresh `LinesCodec`) while the transport is `Pending`: the second line is still buffered and READABLE
+is still set, so it comes out *before* the `Pending` (a swap that dropped the flags would answer
+`Pending` first — and never yield the line if the peer waits for the reply to it) -/
+example : (pollN linesCodec 1 (rinit [.data [104, 10, 119, 10], .pending, .data [120, 10]])).1 = [.item [104]] ∧
+    (pollN linesCodec 4 (pollN linesCodec 1 (rinit [.data [104, 10, 119, 10], .pending, .data [120, 10]])).2).1 =
+      [.item [119], .pending, .item [120], .none] := by decide
+/-- swap from the length-prefixed codec to `LinesCodec` in the middle of a read: the same frames
+whether the bytes arrive in one read or one by one -/
+example : (pollN linesCodec 3 (pollN lenCodec 1 (rinit [.data [1, 7, 97, 10, 98]])).2).1 =
+      [.item [97], .item [98], .none] ∧
+    (pollN lenCodec 1 (rinit [.data [1, 7, 97, 10, 98]])).1 = [.item [7]] ∧
+    (pollN lenCodec 1 (rinit [.data [1], .data [7], .data [97], .data [10], .data [98]])).1 = [.item [7]] ∧
+    (pollN linesCodec 3 (pollN lenCodec 1 (rinit [.data [1], .data [7], .data [97], .data [10], .data [98]])).2).1 =
+      [.item [97], .item [98], .none] := by decide
+/-- READABLE clear at the swap although the new codec can decode the buffer: the frame comes out
+after the next read (here a `Pending` first), nothing is lost or reordered -/
+example : (pollN lenCodec 1 (rinit [.data [5, 97, 10], .pending])).1 = [.pending] ∧
+    (pollN linesCodec 3 (pollN lenCodec 1 (rinit [.data [5, 97, 10], .pending])).2).1 =
+      [.item [5, 97], .none, .none] := by decide
 
 end ActixNet.C13
